@@ -13,13 +13,15 @@ FF_EMERG = 4
 RR_IDLE, RR_HARD, RR_DELETE = 0, 1, 2
 ET_FLOW_MOD_FAILED = 3
 FMFC_OVERLAP = 1
+FMFC_ALL_TABLES_FULL = 0
 PORT_NONE = 0xffff
 
 
 class Table (object):
-  def __init__ (self):
+  def __init__ (self, max_entries=None):
     self.entries = []
     self.seq = 0
+    self.max_entries = max_entries
 
   def _new (self, fm, now):
     self.seq += 1
@@ -57,9 +59,14 @@ class Table (object):
                                                             e["match"]):
             errors.append((ET_FLOW_MOD_FAILED, FMFC_OVERLAP))
             return removed, errors
-      self.entries = [e for e in self.entries
-                      if not (e["priority"] == fm["priority"] and
-                              OM.same_strict(fm["match"], e["match"]))]
+      rest = [e for e in self.entries
+              if not (e["priority"] == fm["priority"] and
+                      OM.same_strict(fm["match"], e["match"]))]
+      # an identical entry is replaced and needs no room; a new one does
+      if self.max_entries is not None and len(rest) >= self.max_entries:
+        errors.append((ET_FLOW_MOD_FAILED, FMFC_ALL_TABLES_FULL))
+        return removed, errors
+      self.entries = rest
       self.entries.append(self._new(fm, now))
       return removed, errors
     if cmd in (DELETE, DELETE_STRICT):
